@@ -114,8 +114,10 @@ def gen_comparison(rng, x: str, others: list[str], mode: str, boundary: bool, al
                     lv["disable"] = True
                 if lv["disable"] and others and rng.random() < 0.3:
                     lv["tf_col"] = y          # TF on another column, own u
-            elif kind in ("else", "null") and r < 0.12:
+            elif kind == "null" and r < 0.12:
                 lv["tf_col"] = x              # configured but inert
+            # (a TF column on an ELSE level alone is not generated: the level's SQL uses no column, so Splink does
+            #  not select the tf_ columns and the engine rejects the query loudly)
             if lv["tf_col"] is not None:
                 lv["w"] = rng.choice(W_ORD)
                 lv["min_u"] = rng.choice(MINU)
